@@ -26,9 +26,9 @@ Proof.
   intros Hw Hall. induction Hall as [|p l Hp _ IH]; [reflexivity|]. cbn [wsum]. rewrite IH, (Hw p Hp). reflexivity.
 Qed.
 
-Lemma IdInv_init named selfs initok others :
+Lemma IdInv_init named lim fb selfs initok others :
   Forall (fun p => init_pc p = true) others ->
-  IdInv (init_N (init_cfg named selfs initok others)) (init_cfg named selfs initok others).
+  IdInv (init_N (init_cfg named lim fb selfs initok others)) (init_cfg named lim fb selfs initok others).
 Proof.
   intros Hall x. unfold init_N, init_cfg. cbn [sh thr init_shared qs handled errs oks].
   split; [|split].
@@ -112,7 +112,7 @@ Proof.
     | context [match ?n with O => _ | S _ => _ end] => destruct n
     end;
     inversion Hp; subst; clear Hp;
-    cbn [st qs upd_st upd_qs upd_intable upd_innames add_handled add_ok add_err add_term set_killed set_initfail finalise] in *;
+    cbn [st qs upd_st upd_qs upd_intable upd_innames add_handled add_ok add_err add_fb add_term set_killed set_initfail finalise] in *;
     try discriminate;
     unfold next_send, enter_cb in *;
     repeat match goal with
@@ -169,8 +169,8 @@ Qed.
 Lemma NoDup_occ_le1 l : NoDup l -> forall x, occ x l <= 1.
 Proof. intros H x. unfold occ. apply (proj1 (NoDup_count_occ Nat.eq_dec l)). exact H. Qed.
 
-Theorem AllInv_reachable sched named selfs initok others :
-  let c0 := init_cfg named selfs initok others in
+Theorem AllInv_reachable sched named lim fb selfs initok others :
+  let c0 := init_cfg named lim fb selfs initok others in
   Forall (fun p => init_pc p = true) others -> NoDup (init_ids c0) ->
   AllInv (init_N c0) (run sched c0).
 Proof.
@@ -231,4 +231,19 @@ Proof.
   rewrite (count_quiescent spawn_pre c Hq eq_refl), (count_quiescent run_pre c Hq eq_refl) in H.
   destruct (st (sh c)); try reflexivity; try (destruct H; lia); try contradiction.
   destruct H as (_ & _ & _ & [[_ H]|[H _]]); [lia|congruence].
+Qed.
+
+(* fallback: a message refused by the full mailbox and re-routed to the fallback process is
+   re-routed exactly once and is never queued, handled or reported as an error here *)
+Lemma AllInv_fallback N c : AllInv N c -> (forall x, N x <= 1) ->
+  forall x, occ x (fbs (sh c)) <= 1 /\
+    (1 <= occ x (fbs (sh c)) ->
+       occ x (handled (sh c)) = 0 /\ Qa x (qs (sh c)) = 0 /\ occ x (errs (sh c)) = 0 /\ occ x (oks (sh c)) = 0).
+Proof.
+  intros (_ & HId & _) HN x. destruct (HId x) as (I1 & I2 & _). specialize (HN x).
+  pose proof (qa_split x) as Hs.
+  assert (Ql x (qs (sh c)) <= Qa x (qs (sh c))).
+  { unfold Ql, Qa. pose proof (qa_split x (q0 (qs (sh c)))). pose proof (qa_split x (q1 (qs (sh c)))).
+    pose proof (qa_split x (q2 (qs (sh c)))). pose proof (qa_split x (q3 (qs (sh c)))). lia. }
+  repeat split; intros; lia.
 Qed.
